@@ -12,7 +12,7 @@ type Seg struct {
 	Kind string `json:"k"` // rand | text | run | period | repeat | fib | near | inc
 	N    int    `json:"n"` // length in bytes
 	A    int    `json:"a,omitempty"`
-	B    int    `json:"b,omitempty"` // kind "fib": 1 = counts start 1,2,3,5 instead of 1,1,2,3
+	B    int    `json:"b,omitempty"` // kind "fib": 1 = counts start 1,2,3,5 instead of 1,1,2,3; kind "period": alphabet size of the period (0 = all byte values)
 	Seed uint64 `json:"s,omitempty"`
 	Raw  []byte `json:"raw,omitempty"` // kind "raw": literal bytes (used by fuzz targets and replays)
 }
@@ -85,6 +85,10 @@ func (s Seg) appendTo(out []byte) []byte {
 		pat := make([]byte, p)
 		for i := range pat {
 			pat[i] = byte(x.next() >> 24)
+			if s.B > 1 && s.B < 256 {
+				// period over a small alphabet
+				pat[i] = 'a' + pat[i]%byte(s.B)
+			}
 		}
 		if len(s.Raw) > 0 {
 			// an explicit period
